@@ -6,6 +6,8 @@ import time
 
 VERIF = os.path.dirname(os.path.dirname(os.path.abspath(__file__)))
 KNOWN = os.path.join(VERIF, "known_findings.json")
+# self-tests run the checks against scratch copies and must not overwrite the real evidence
+OUT = os.environ.get("VERIF_OUT") or VERIF
 
 
 class Violation:
@@ -106,7 +108,7 @@ def finish(res, level_text, trusted_base, out=None):
     for k in known.get("findings", []):
         if k["property"] == res.prop:
             known_keys[k["key"]] = k
-    findings_dir = os.path.join(VERIF, "findings", res.prop)
+    findings_dir = os.path.join(OUT, "findings", res.prop)
     os.makedirs(findings_dir, exist_ok=True)
     # remove stale replay files of this property
     for f in os.listdir(findings_dir):
@@ -169,8 +171,8 @@ def finish(res, level_text, trusted_base, out=None):
         wall_s=round(wall, 2),
         violations=len(new_viol),
     )
-    os.makedirs(os.path.join(VERIF, "evidence"), exist_ok=True)
-    with open(os.path.join(VERIF, "evidence", res.prop + ".json"), "w") as fh:
+    os.makedirs(os.path.join(OUT, "evidence"), exist_ok=True)
+    with open(os.path.join(OUT, "evidence", res.prop + ".json"), "w") as fh:
         json.dump(ev, fh, indent=1, sort_keys=False)
     out.write("%s %s: %d rules, %d obligations, %d discharged, %d known findings, %d violations, %.1fs\n" % (
         res.prop, res.tier, len(res.rules), obligations, discharged, len(known_hit), len(new_viol), wall))
